@@ -267,6 +267,26 @@ func checkC13Reconn(ix *index, add addFn) {
 				add("closes-silent", fmt.Sprintf("conn %d was closed after the silent period but no new dial followed", k), nil)
 			}
 		}
+		// a peer that went silent is detected whatever else the client is doing:
+		// by one interval (the next tick) plus the timeout, with one more interval
+		// of slack for a ping that was in flight - also if the client, busy
+		// sending, never got round to pinging at all
+		if cfg.PingIntervalUs > 0 && len(cfg.Yields) == 0 && ix.complete && ix.discAt < 0 && !otherEnding(ix, k) {
+			for i := range ix.tr {
+				r := &ix.tr[i]
+				if r.Kind != "silent" || r.Conn != k || i < c.activeAt {
+					continue
+				}
+				deadline := r.T + (2*cfg.PingIntervalUs+timeout)*1000
+				if deadline+1000000 >= ix.sc.HorizonUs*1000 {
+					break // silence ends at the horizon
+				}
+				if c.endAt < 0 || ix.tr[c.endAt].T > deadline {
+					add("closes-silent", fmt.Sprintf("conn %d: the peer went silent at t=%dns; the connection was not closed within two intervals plus the timeout", k, r.T), map[string]string{"kind": "unpinged"})
+				}
+				break
+			}
+		}
 		if !p.lost && !p.late && !silentDrop {
 			// healthy as far as keep-alive is concerned: no ErrPingTimeout may appear for it
 			for i := range ix.tr {
